@@ -26,6 +26,8 @@ RULES = {
     "C12-d": "delegation: scale_to and ScaleTo call structure.scale(x) on every non-raising path",
     "C12-e": "STATELESS: the rows ToCSV writes for a value do not depend on earlier values (no loop-carried settings)",
     "C12-f": "LIMIT: iter_cells tells an absent index limit (None) from the limit 0 -- limits are compared with None, never tested for truth",
+    "C12-g": "AGREE: set_nevents divides by exactly what get_nevents reports for the same include_out_of_range; the parsed error "
+             "names keep the order of the fields (their position is their column)",
 }
 HIST = "lena.structures.histogram"
 GRAPH = "lena.structures.graph"
@@ -442,7 +444,92 @@ def check_index_limits(ctx):
         ctx.instances_floor("C12-f", n, 2, "index limits of iter_cells compared with None")
 
 
+def check_agreements(ctx):
+    res = ctx.res
+    # (1) set_nevents: after it, get_nevents(include_out_of_range=flag) must equal nevents.  The factor must therefore be
+    #     nevents / get_nevents(include_out_of_range=<the same flag>), and that count may not be adjusted afterwards.
+    sn = ctx.tree.func(HIST, "histogram.set_nevents")
+    ps = [p for p in A.func_params(sn) if p != "self"]
+    if ctx.require(len(ps) == 2, "C12-g", sn, "set_nevents: parameters (nevents, include_out_of_range) expected"):
+        nev, flag = ps
+        calls = [c for c in A.walk_local(sn) if isinstance(c, ast.Call) and A.src(c.func) == "self.get_nevents"]
+        ok = len(calls) == 1
+        why = "%d calls of self.get_nevents" % len(calls)
+        if ok:
+            c = calls[0]
+            target = ctx.tree.func(HIST, "histogram.get_nevents")
+            formal = [p for p in A.func_params(target) if p != "self"]
+            bound = {}
+            for k, a in enumerate(c.args):
+                if k < len(formal):
+                    bound[formal[k]] = A.src(a)
+            for kw in c.keywords:
+                bound[kw.arg] = A.src(kw.value)
+            ok = bound.get("include_out_of_range") == flag
+            why = "get_nevents is asked with include_out_of_range=%s, not with the caller's `%s`" % (bound.get("include_out_of_range", "<default>"), flag)
+            par = A.parent(c)
+            if ok and isinstance(par, ast.Assign) and len(par.targets) == 1 and isinstance(par.targets[0], ast.Name):
+                cnt = par.targets[0].id
+                others = [x for x in A.walk_local(sn) if isinstance(x, (ast.Assign, ast.AugAssign)) and x is not par
+                          and any(cnt in A.target_names(t) for t in A.assigned_targets(x))]
+                ok = not others
+                why = "the event count is adjusted after it was read (`%s`)" % (A.short(others[0], 50) if others else "")
+                if ok:
+                    divs = [d for d in A.walk_local(sn) if isinstance(d, ast.BinOp) and isinstance(d.op, ast.Div)]
+                    ok = len(divs) == 1 and A.src(divs[0].left) == nev and A.src(divs[0].right) == cnt
+                    why = "the factor is not %s / %s" % (nev, cnt)
+        ctx.check("C12-g", ok, sn, "set_nevents: %s -- afterwards get_nevents(include_out_of_range=%s) is not the requested number "
+                  "(e.g. with a negative n_out_of_range after a weighted subtraction)" % (why, flag if len(ps) == 2 else "?"),
+                  detail="set_nevents: factor = nevents / get_nevents(include_out_of_range=flag)", construct="set_nevents-denominator")
+    # (2) the position of a parsed error is its column: no reordering between the field names and the returned list
+    pe = ctx.tree.func(GRAPH, "graph._parse_error_names")
+    gi = ctx.tree.func(GRAPH, "graph._get_err_indices")
+    positional = any(isinstance(l, ast.For) and A.call_name(l.iter) == "enumerate" and l.iter.args
+                     and A.src(l.iter.args[0]) == "self._parsed_error_names" for l in A.walk_local(gi))
+    if ctx.require(positional, "C12-g", gi, "_get_err_indices no longer derives the column from the position in _parsed_error_names"):
+        rets = [r.value.id for r in A.walk_local(pe) if isinstance(r, ast.Return) and isinstance(r.value, ast.Name)]
+        if ctx.require(len(set(rets)) == 1, "C12-g", pe, "_parse_error_names: expected one returned list"):
+            R = rets[0]
+            chain = {R}
+            for l in A.walk_local(pe):
+                if isinstance(l, ast.For) and any(isinstance(c, ast.Call) and isinstance(c.func, ast.Attribute) and c.func.attr == "append"
+                                                   and A.src(c.func.value) in chain for c in A.walk_body(l.body)):
+                    it = l.iter
+                    while isinstance(it, ast.Call) and A.call_name(it) in ("enumerate", "sorted", "reversed", "list", "iter") and it.args:
+                        it = it.args[0]
+                    if isinstance(it, ast.Name) and it.id not in A.func_params(pe):
+                        chain.add(it.id)
+            # second pass: the list the first one is built from
+            for l in A.walk_local(pe):
+                if isinstance(l, ast.For) and any(isinstance(c, ast.Call) and isinstance(c.func, ast.Attribute) and c.func.attr == "append"
+                                                   and A.src(c.func.value) in chain for c in A.walk_body(l.body)):
+                    it = l.iter
+                    while isinstance(it, ast.Call) and A.call_name(it) in ("enumerate", "sorted", "reversed", "list", "iter") and it.args:
+                        it = it.args[0]
+                    if isinstance(it, ast.Name) and it.id not in A.func_params(pe):
+                        chain.add(it.id)
+            bad = []
+            for x in A.walk_local(pe):
+                if isinstance(x, ast.Call) and isinstance(x.func, ast.Attribute) and x.func.attr in ("sort", "reverse", "insert", "pop", "remove") \
+                        and A.src(x.func.value) in chain:
+                    bad.append(x)
+                elif isinstance(x, ast.Call) and A.call_name(x) in ("sorted", "reversed", "set", "frozenset") and x.args and A.src(x.args[0]) in chain \
+                        and not (A.call_name(x) == "set" and A.src(x.args[0]) not in (R,)):
+                    if A.src(x.args[0]) == R or isinstance(A.parent(x), (ast.For, ast.Return, ast.Assign)) and A.call_name(x) != "set":
+                        bad.append(x)
+                elif isinstance(x, ast.For) and isinstance(x.iter, ast.Call) and A.call_name(x.iter) in ("reversed", "sorted") and x.iter.args \
+                        and A.src(x.iter.args[0]) in chain:
+                    bad.append(x.iter)
+            for b in bad:
+                ctx.violation("C12-g", b, "_parse_error_names reorders the errors (`%s`), but _get_err_indices takes the k-th parsed error for "
+                              "column dim + k: graph.scale then rescales the error columns of another coordinate and leaves its own "
+                              "unscaled" % A.short(b, 50), construct="errors-reordered:%s" % A.call_name(b))
+            if not bad:
+                ctx.ok("C12-g", pe, "parsed errors keep the order of the field names (lists %s only appended to, iterated forwards)" % sorted(chain))
+
+
 def check(ctx):
+    check_agreements(ctx)
     check_tocsv_stateless(ctx)
     check_index_limits(ctx)
     check_zero_guards(ctx)
@@ -452,6 +539,10 @@ def check(ctx):
 
 
 VARIANTS = [
+    M("set-nevents-own-count", "lena/structures/histogram.py", "        old_nevents = self.get_nevents(\n            include_out_of_range=include_out_of_range\n        )", "        old_nevents = self.get_nevents()\n        if include_out_of_range and self.n_out_of_range > 0:\n            old_nevents += self.n_out_of_range", ["C12-g"]),
+    M("set-nevents-flag-dropped", "lena/structures/histogram.py", "        old_nevents = self.get_nevents(\n            include_out_of_range=include_out_of_range\n        )", "        old_nevents = self.get_nevents()", ["C12-g"]),
+    M("parsed-errors-sorted", "lena/structures/graph.py", "            parsed_errors.append((\"error\", err_coords[0], err_tail, ind))\n\n        return parsed_errors", "            parsed_errors.append((\"error\", err_coords[0], err_tail, ind))\n\n        parsed_errors.sort(key=lambda err: err[1])\n        return parsed_errors", ["C12-g"]),
+    M("errors-iterated-sorted", "lena/structures/graph.py", "        for err, ind in errors:\n            err_coords = []", "        for err, ind in sorted(errors):\n            err_coords = []", ["C12-g"]),
     M("hist-scale-no-zero-test", "lena/structures/histogram.py", "            if scale == 0:\n                raise LenaValueError(\n                    \"can not rescale histogram with zero scale\"\n                )\n", "", ["C12-a"]),
     M("graph-scale-none-only", "lena/structures/graph.py", "        if not self._scale:\n            raise lena.core.LenaValueError(\n                \"can't rescale a graph with zero or unknown scale\"",
       "        if self._scale is None:\n            raise lena.core.LenaValueError(\n                \"can't rescale a graph with zero or unknown scale\"", ["C12-a"]),
